@@ -147,6 +147,18 @@ def one_config(acc, cfg):
                 for r in raw:
                     term.process_incoming_burst(Burst.from_bytes(r), 1)
                     calls += 2
+            elif mode == "reused_receive_buffer":
+                # a recv_into()-style reader: every burst arrives in the same bytearray, is parsed at once and queued; the buffer
+                # holds other octets by the time the queue is drained (a parsed burst must own its bits)
+                buf = bytearray(33)
+                parsed_all = []
+                for r in raw:
+                    buf[:] = r
+                    parsed_all.append(Burst.from_bytes(buf))
+                buf[:] = b"\xa5" * 33
+                for pb in parsed_all:
+                    term.process_incoming_burst(pb, 1)
+                calls += 2 * len(raw)
             else:  # the whole recording is parsed first, then fed (parsed bursts must not share decoder state)
                 parsed_all = [Burst.from_bytes(r) for r in raw]
                 for pb in parsed_all:
@@ -237,12 +249,14 @@ def build_space(thorough):
 
     max_len = 1500 if thorough else 100
     rc = [(r, c) for r in ("r12", "r34", "r1") for c in (False, True)]
-    # (a) every payload length, every rate, both modes, one preamble, counter fill; the two feeding modes alternate with the length
+    # (a) every payload length, every rate, both confirmation modes, one preamble, counter fill; the three feeding modes rotate with the length
+    modes = ("one_by_one", "parse_all_then_feed", "reused_receive_buffer")
     for ri, (r, c) in enumerate(rc):
         for length in range(0, max_len + 1):
-            add((r, c, length, 1, 1, "counter", "ShortData", "one_by_one" if (length + ri) % 2 == 0 else "parse_all_then_feed"))
+            add((r, c, length, 1, 1, "counter", "ShortData", modes[(length + ri) % 3]))
         for length in range(0, 41 if not thorough else 121):
-            add((r, c, length, 1, 1, "counter", "ShortData", "one_by_one" if (length + ri) % 2 else "parse_all_then_feed"))
+            add((r, c, length, 1, 1, "counter", "ShortData", modes[(length + ri + 1) % 3]))
+            add((r, c, length, 1, 1, "counter", "ShortData", modes[(length + ri + 2) % 3]))
     # (a2) every service access point the header can announce x short payloads (receiver-side decoding keyed on the SAP)
     for r, c in rc:
         for sap in ("UDT", "TCP_IP_compression", "UDP_IP_compression", "IP_PacketData", "ARP", "Proprietary", "ShortData"):
